@@ -414,7 +414,9 @@ func genCertType(g *hx.Gen, out *hx.Out) {
 	}
 	host := hx.HexS(certutil.CriticalOptionTouchlessSudoHosts)
 	crits := []string{"nil", "map:", "map:" + host + "=-", "map:" + host + "=" + hx.HexS("h1,h2"), "map:" + hx.HexS("force-command") + "=" + hx.HexS("ls")}
-	prinsSets := [][]string{{}, {"alice"}, {"alice", "bob"}, {"", "a:b", "日本"}}
+	prinsSets := [][]string{{}, {"alice"}, {"alice", "bob"}, {"", "a:b", "日本"},
+		// principals that already look labelled
+		{"root:touch", "x:notouch"}, {"a:touch:notouch", ":touch", ":notouch", "touch"}}
 	emit("", "nil", []string{"a"}, true)
 	touches := []int64{-1, 0, 1, 2, 3, 4, 1 << 31, 17, 18, 19, 257, 258, 259, 65537, 1<<32 + 1, 1<<32 + 2, 1<<32 + 3, -15, -14, -13, 1 << 32}
 	for flags := 0; flags < 16; flags++ {
